@@ -1,6 +1,9 @@
 // Unit C01 (PARTIAL / residual) - the sub-register and flag machinery every lifted x86 / x86-64 instruction goes
 // through: translator::x86::x86register (the two register tables, get_register, X86Register::{bits, is_full,
 // get_full, get, set}) and the flag helpers of translator::x86::semantics (set_zf, set_sf, set_of, set_cf).
+// Extended: condition codes / count registers / stack helpers (cond.rs, addr.rs, stack.rs), operand decoding - effective
+// address, operand_value / operand_load / operand_store (operand.rs) - and the repeat prefixes rep_prefix / repne_prefix
+// (rep.rs, over unit C15's ControlFlowGraph edit contracts: cfg_glue.rs).
 // Generated file = this template + the real text of the items named in the `//@` holes.
 // Imported under contract: il::{Constant, Scalar, Expression}, eval_spec (C04); il core + Block::assign (C15);
 // graph (C11, only because il::ControlFlowGraph's definition mentions it).
@@ -28,6 +31,7 @@ verus! {
 //@ include prelude/strmap.rs
 //@ include prelude/capstone_x86.rs
 //@ include prelude/capstone_x86_insn.rs
+//@ include prelude/int_std.rs
 //@ mode contracts-only C11
 //@ include units/C11/error_from.rs
 //@ mode contracts-only C15
@@ -64,6 +68,7 @@ use super::graph::{Vertex as GraphVertexTrait, Edge as GraphEdgeTrait};
 //@ include units/C01/bits.rs
 //@ include units/C01/il_glue.rs
 //@ include units/C01/il_glue2.rs
+//@ include units/C01/cfg_glue.rs
 proof fn vf_canary_il() ensures false {}
 } // mod il
 
@@ -82,6 +87,8 @@ use vstd::std_specs::iter::IteratorSpec;
 //@ include units/C01/cond.rs
 //@ include units/C01/addr.rs
 //@ include units/C01/stack.rs
+//@ include units/C01/operand.rs
+//@ include units/C01/rep.rs
 proof fn vf_canary_x86() ensures false {}
 } // mod x86
 } // mod translator
